@@ -85,6 +85,7 @@ def conc_state(b, tag):
 
 
 GHOST_ARRAYS = ['sem', 'sem2', 'sem3', 'sem1', 'qex', 'qfa', 'hl', 'rt', 'ext']
+STORED = [f for f in M.ALLF if f not in GHOST_ARRAYS]
 
 
 def pins(S, model, nodes, levels):
@@ -106,10 +107,12 @@ def pins(S, model, nodes, levels):
 class Case:
     """one concrete execution: manager factory, function, arguments (python values) and how they appear to the contract"""
 
-    def __init__(self, contract, seed, build, call, zargs, describe, ret=None, muts=None, mgrs=None):
+    def __init__(self, contract, seed, build, call, zargs, describe, ret=None, muts=None, mgrs=None, managers=None, primary='self', extra=None):
         self.contract, self.seed = contract, seed
         self.build, self.call, self.zargs, self.describe = build, call, zargs, describe
         self.ret, self.muts_fn, self.mgrs_fn = ret, muts, mgrs
+        self.extra = extra      # env, entry states -> further constraints (e.g. a frozen ghost heap equal to the entry state)
+        self.managers, self.primary = managers, primary      # several managers: env -> {key: manager}; key of the contract's own
 
 
 def z_of_result(c, r):
@@ -158,17 +161,21 @@ def run_case(REG, case, rnd):
 
 def _run_case(REG, case, rnd, env):
     c = REG[case.contract]
-    b = env['b']
-    S0 = conc_state(b, 'c0')
-    a0 = case.zargs(env)                       # dict name -> z3 value / DictV / SetV ; may include *_none
+    objs = case.managers(env) if case.managers else {'self': env['b']}
+    b = objs[case.primary]
+    states0 = {k: conc_state(m_, 'c0' + k) for k, m_ in objs.items()}
+    S0 = states0[case.primary]
+    import inspect
+    a0 = case.zargs(env, states0) if len(inspect.signature(case.zargs).parameters) == 2 else case.zargs(env)
     a = Ctx(**a0)
-    mgrs = {'self': S0, 'bdd': S0}
-    if case.mgrs_fn:
-        mgrs.update(case.mgrs_fn(env, 'c0'))
+    mgrs = dict(states0)
+    if not case.managers:
+        mgrs['bdd'] = S0
     ctx0 = Ctx(S=S0, S0=S0, a=a, mgrs=mgrs, mgrs0=mgrs, uses=c.uses, ex=None, path=None)
     distinct = [z3.Distinct(*NAMEZ.values())]
-    nodes = [IntVal(u) for u in b._succ]
-    levels = [IntVal(l) for l in range(len(b.vars) + 2)]
+    nodes = sorted({u for m_ in objs.values() for u in m_._succ})
+    nodes = [IntVal(u) for u in nodes]
+    levels = [IntVal(l) for l in range(max(len(m_.vars) for m_ in objs.values()) + 2)]
     try:
         pre = list(c.pre(ctx0))
     except Exception:  # noqa
@@ -176,6 +183,8 @@ def _run_case(REG, case, rnd, env):
     # random hints for the free ghost parameters (dropped when they contradict the precondition)
     s = Solver()
     s.set('timeout', TIMEOUT)
+    if case.extra:
+        distinct = distinct + list(case.extra(env, states0))
     s.add(*distinct)
     s.add(*[g for _, g in pre])
     r = s.check()
@@ -207,7 +216,11 @@ def _run_case(REG, case, rnd, env):
                     depth -= 1
             if s.check() != sat:
                 return None
-            return pins(S0, s.model(), nodes, levels)
+            mdl = s.model()
+            out = []
+            for Sk in states0.values():
+                out += pins(Sk, mdl, nodes, levels)
+            return out
         finally:
             for _ in range(depth):
                 s.pop()
@@ -219,10 +232,11 @@ def _run_case(REG, case, rnd, env):
     except Exception as e:  # noqa
         exc = e
         result = None
-    S1 = conc_state(b, 'c1')
-    mgrs1 = {'self': S1, 'bdd': S1}
-    if case.mgrs_fn:
-        mgrs1.update(case.mgrs_fn(env, 'c1'))
+    states1 = {k: conc_state(m_, 'c1' + k) for k, m_ in objs.items()}
+    S1 = states1[case.primary]
+    mgrs1 = dict(states1)
+    if not case.managers:
+        mgrs1['bdd'] = S1
     muts = case.muts_fn(env, a0) if case.muts_fn else {}
     if exc is None:
         try:
@@ -235,6 +249,9 @@ def _run_case(REG, case, rnd, env):
             if rs.must:
                 post.append((f'raises:{ename}.only-normal-return-when-not', Not(rs.when(ctx0))))
         what = 'returned ' + repr(result)[:80]
+        for k in objs:
+            if k != case.primary:
+                post.append((f'frame:{k}-manager-untouched', M.keep(states0[k], states1[k], STORED)))
     else:
         ename = type(exc).__name__
         if ename not in c.raises:
